@@ -5,6 +5,7 @@ mod aead;
 mod c01;
 mod c02;
 mod c03;
+mod c04;
 mod c05;
 mod c06;
 mod c07;
@@ -14,10 +15,15 @@ mod c10;
 mod c11;
 mod c12;
 mod c13;
+mod c16;
+mod probe;
 #[cfg(feature = "nightly")]
 mod pm;
 
 use serde_json::Value;
+
+#[global_allocator]
+static GLOBAL: c04::CountingAlloc = c04::CountingAlloc;
 
 fn replay(path: &str) -> i32 {
     sodium::init();
@@ -39,6 +45,11 @@ fn replay(path: &str) -> i32 {
             "C10.str" => c10::replay(case),
             "C11.rng" => c11::replay(case),
             "C13.keys" => c13::replay(case),
+            "C04.total" => c04::replay(case),
+            "C16.codec" => {
+                println!("C16 cases are deterministic table cells: re-running the whole check");
+                std::process::exit(c16::run());
+            }
             "C03.model" => c03::replay_model(case),
             "C03.sweep" => c03::replay_sweep(case),
             #[cfg(feature = "nightly")]
@@ -80,6 +91,8 @@ fn main() {
         "C02" => c02::run(c02::Mode::Tamper),
         "C17" => c02::run(c02::Mode::Leak),
         "C03" => c03::run(),
+        "C04" => c04::run(),
+        "c04worker" => c04::worker(&args[2..]),
         "C05" => c05::run(),
         "C06" => c06::run(),
         "C07" => c07::run(),
@@ -89,6 +102,8 @@ fn main() {
         "C11" => c11::run(),
         "C12" => c12::run(),
         "C13" => c13::run(),
+        "C16" => c16::run(),
+        "probe" => probe::run(&args[2..]),
         #[cfg(feature = "nightly")]
         "pmworker" => pm::worker(&args[2..]),
         #[cfg(feature = "nightly")]
